@@ -54,6 +54,8 @@ class Event:
     pre: dict | None = None  # snapshot of relevant facts before the event
     origin: FuncInfo | None = None
     _site0: tuple | None = None
+    xdepth: int = 0  # inlining depth not counting helper methods of the analysed class itself
+    xctx: tuple = ()  # ctx without those helpers
 
     def where(self) -> str:
         f = self.origin
@@ -342,18 +344,22 @@ class Interp(Hooks):
         return out
 
     def _register_methods(self) -> set[str]:
-        """Methods of the history class that append their parameter to a stack."""
+        """Methods of the history class that put their parameter on a stack."""
         out = set()
         for name, m in self.hist_cls.methods.items():
+            if name == "__init__":
+                continue
             params = set(m.params[1:])
+
+            def is_param(x):
+                return isinstance(x, ast.Name) and x.id in params
+
             for c in ast.walk(m.node):
-                if (
-                    isinstance(c, ast.Call)
-                    and call_name(c) == "append"
-                    and c.args
-                    and isinstance(c.args[0], ast.Name)
-                    and c.args[0].id in params
-                ):
+                if isinstance(c, ast.Call) and call_name(c) in ("append", "insert") and c.args and is_param(c.args[-1]):
+                    out.add(name)
+                if isinstance(c, ast.Call) and call_name(c) == "extend" and c.args and isinstance(c.args[0], (ast.List, ast.Tuple)) and any(is_param(x) for x in c.args[0].elts):
+                    out.add(name)
+                if isinstance(c, ast.AugAssign) and isinstance(c.op, ast.Add) and isinstance(c.value, (ast.List, ast.Tuple)) and any(is_param(x) for x in c.value.elts):
                     out.add(name)
         if not out:
             raise AnalysisError("history class has no registering method")
@@ -370,6 +376,20 @@ class Interp(Hooks):
         self.stack = []
         return self.walker.run(self.entry.node, st)
 
+    def own_helper(self, f: FuncInfo) -> bool:
+        """Is `f` a helper of the analysed entry (method of the same class / its bases that is
+        not a constructor, or a nested function of the entry)?"""
+        e = self.entry
+        if f.parent is not None and (f.parent is e or f.parent.parent is e):
+            return True
+        if e.cls is None or f.cls is None or f.name == "__init__":
+            return False
+        if f.cls.qname == e.cls.qname:
+            return True
+        return f.cls.qname in {c.qname for c in self.P.mro(e.cls.qname)} and f.cls.qname in self.user_q | {
+            c.qname for c in self.P.mro(e.cls.qname) if c.name in ("ActionGroup", "Action")
+        }
+
     def origin(self, node: ast.AST) -> FuncInfo:
         return getattr(node, "_origin", self.entry)
 
@@ -384,6 +404,8 @@ class Interp(Hooks):
         d: AState = st.data
         ev = Event(kind, name, args, node, self.depth, self.ctx(), d.dirty, pre, self.origin(node))
         ev._site0 = self.site0
+        ev.xctx = tuple(f.short for f, _ in self.stack if not self.own_helper(f))
+        ev.xdepth = len(ev.xctx)
         d.events.append(ev)
         return ev
 
@@ -485,6 +507,10 @@ class Interp(Hooks):
     def _index(self, b: str, i: int, d: AState) -> str:
         if is_tuple_term(b):
             return index_term(b, i)
+        if b.startswith("succs(") and i == 0:
+            return "succ1(" + b[len("succs("):]
+        if b.startswith("preds(") and i == 0:
+            return "pred1(" + b[len("preds("):]
         if b.startswith("in_edges(") and i == 0:
             n = b[len("in_edges("):].rsplit(")@", 1)[0]
             ep = b.rsplit("@", 1)[1]
@@ -761,6 +787,22 @@ class CondMixin:
             if r is None:
                 return None
             return r if isinstance(op, ast.Is) else not r
+        if isinstance(op, (ast.In, ast.NotIn)) and is_tuple_term(R) and all(_int(x) is not None for x in split_tuple(R)):
+            num = self.numeric(L, d)
+            if num is None:
+                return None
+            lo, hi, ax, _ = num
+            if hi >= INF:
+                return None
+            consts = {int(x) for x in split_tuple(R)}
+            vals = list(range(lo, hi + 1))
+            sat = [v for v in vals if v in consts]
+            if len(sat) == len(vals) or not sat:
+                if ax:
+                    self.note_axiom(d, "AX-FOREST", f"{L} in [{lo},{hi}] decides `{norm(e)}`")
+                r = bool(sat)
+                return r if isinstance(op, ast.In) else not r
+            return None
         if isinstance(op, (ast.In, ast.NotIn)):
             r = None
             if R.endswith(".graph") or R.endswith(".graph.nodes"):
@@ -860,6 +902,16 @@ class CondMixin:
             if t is not None:
                 d.add("isnone" if val else "notnone", t)
                 self.derive_optional(t, val, d)
+            return
+        if isinstance(op, (ast.In, ast.NotIn)) and is_tuple_term(R) and all(_int(x) is not None for x in split_tuple(R)):
+            num = self.numeric(L, d)
+            if num is not None:
+                lo, hi, ax, (which, n) = num
+                consts = {int(x) for x in split_tuple(R)}
+                val = outcome if isinstance(op, ast.In) else not outcome
+                vals = [v for v in range(lo, min(hi, 8) + 1) if (v in consts) == val]
+                if vals:
+                    self.set_deg(d, which, n, min(vals), max(vals) if hi < INF else hi, ax)
             return
         if isinstance(op, (ast.In, ast.NotIn)):
             val = outcome if isinstance(op, ast.In) else not outcome
@@ -1175,12 +1227,14 @@ class Engine(CondMixin, Interp):
             exc = "AssertionError"
         self.emit_event(st, "raise", exc or "?", {"stmt": norm(node)[:120]}, node)
 
-    def on_return(self, st: PState, node: ast.Return) -> None:
+    def on_return(self, st: PState, node: ast.Return):
         d: AState = st.data
         if node.value is not None:
-            res = self.on_stmt(st, ast.copy_location(ast.Expr(node.value), node), _ret=True)
-        else:
-            d.ret = "None"
+            e = ast.copy_location(ast.Expr(node.value), node)
+            e._origin = getattr(node, "_origin", None) or self.origin(node)
+            return self.on_stmt(st, e, _ret=True)
+        d.ret = "None"
+        return None
 
     def on_with(self, st: PState, node: ast.With) -> None:
         for item in node.items:
@@ -1395,10 +1449,17 @@ class Engine(CondMixin, Interp):
                 argt.append(self.term(a, d))
         for p, t in zip(params, argt, strict=False):
             bound[p] = t
+        va = callee.node.args.vararg
+        if va is not None:
+            n_pos = len([a for a in callee.node.args.posonlyargs + callee.node.args.args]) - (1 if is_method else 0)
+            rest = argt[n_pos:]
+            bound[va.arg] = "(" + ", ".join(rest) + ("," if len(rest) == 1 else "") + ")"
+        if callee.node.args.kwarg is not None:
+            bound[callee.node.args.kwarg.arg] = "{}"
         for kw in call.keywords:
             if kw.arg is not None:
                 bound[kw.arg] = self.term(kw.value, d)
-        for p in callee.params:
+        for p in list(callee.params):
             if p not in bound:
                 dflt = callee.param_default(p)
                 bound[p] = self.term(dflt, AState()) if dflt is not None else f"$?{p}"
@@ -1477,17 +1538,22 @@ class Engine(CondMixin, Interp):
         """Forget facts about values nothing live can name any more."""
         live = " \x00 ".join(d.vars.values())
 
-        def dead(t) -> bool:
+        def dead(t, roots: bool = True) -> bool:
             if not isinstance(t, str):
                 return False
             while t.startswith("time(") and t.endswith(")"):
                 t = t[5:-1]
-            if ("@" in t or "#" in t) and t not in live:
+            if t in live:
+                return False  # some live variable holds (a value containing) this term
+            if "@" in t or "#" in t:
                 return True
-            return any(r not in live for r in _ROOT.findall(t))
+            return roots and any(r not in live for r in _ROOT.findall(t))
 
-        for f in [f for f in d.facts if any(dead(x) for x in (f[1:3] if f[0] == "item" else f[1:]))]:
-            d.facts.discard(f)
+        for f in list(d.facts):
+            # order facts between parameters stay (obligations at the end of a function read them)
+            by_root = f[0] not in ("tlt", "tle")
+            if any(dead(x, by_root) for x in (f[1:3] if f[0] == "item" else f[1:])):
+                d.facts.discard(f)
         for k in [k for k, v in d.timeeq.items() if dead(k) or dead(v)]:
             del d.timeeq[k]
         for tab in (d.din, d.dout):
@@ -1669,6 +1735,8 @@ def _engine_transfer(self: Engine, st: PState, stmt: ast.stmt, _ret: bool) -> No
             self.store_effect(st, stmt.target, value_term)
     elif isinstance(stmt, ast.Expr) and _ret:
         d.ret = value_term
+        if not self.stack:
+            self.emit_event(st, "return", "", {"value": value_term}, stmt, pre=d.snapshot())
     elif isinstance(stmt, ast.Delete):
         for t in stmt.targets:
             if isinstance(t, ast.Subscript):
